@@ -1,4 +1,4 @@
 """C01 -- SOLVED implies a valid optimality certificate for the user's problem."""
 from props._common import run_solver_property
 def run(ctx):
-    return run_solver_property(ctx, "C01", codes=("C01", "C08.sign"))
+    return run_solver_property(ctx, "C01", codes=("C01", "C08.sign"), extra_theorem_files=("Properties_C01_e2e.v",))
